@@ -231,7 +231,7 @@ def last_write(ops):
     return d
 
 
-def py_property(n_nodes, wdict, pairs):
+def py_property(n_nodes, wdict, pairs, all_int=False):
     """the property itself, Python side: returns None when `pairs` is a minimum-weight perfect matching of the graph
     `wdict` (frozenset pair -> Fraction) on nodes 0..n_nodes-1, else a description"""
     if isinstance(pairs, str):
@@ -253,14 +253,14 @@ def py_property(n_nodes, wdict, pairs):
             next(i for i, c in enumerate(seen) if c != 1), next(c for c in seen if c != 1))
     if n_nodes <= DP_MAX_NODES:
         scale = max([abs(w) for w in wdict.values()] + [Fraction(0)]) * n_nodes
-        if best is not None and tot - best > Fraction(REL_TOL) * scale:
+        if best is not None and tot - best > (0 if all_int else Fraction(REL_TOL) * scale):
             return 'total weight {} exceeds the minimum over perfect matchings {}'.format(tot, best)
     return None
 
 
 # ------------------------------------------------------------------------------------------ generators
 
-WKINDS = ['int', 'smallint', 'dyadic', 'zero', 'negative', 'tied', 'bigint', 'float', 'mixed']
+WKINDS = ['int', 'smallint', 'dyadic', 'zero', 'negative', 'tied', 'bigint', 'hugeint', 'float', 'mixed']
 
 
 def gen_weight(rng, kind):
@@ -278,6 +278,8 @@ def gen_weight(rng, kind):
         return rng.choice([1, 1, 1, 2, 2.0, 0.5])
     if kind == 'bigint':
         return rng.randint(-10 ** 12, 10 ** 12)
+    if kind == 'hugeint':    # Python ints far beyond 2**53 that differ only in their low bits (exact in int arithmetic)
+        return rng.choice([2 ** 56, 2 ** 56, 2 ** 60, 10 ** 20, -(2 ** 62), 2 ** 80]) + rng.randint(0, 9)
     if kind == 'float':
         return rng.choice([rng.random() * 10, -rng.random(), rng.gauss(0, 3), 0.1 * rng.randint(1, 30)])
     return gen_weight(rng, rng.choice(WKINDS[:-1]))
@@ -753,7 +755,7 @@ def handle_captured(ctx, name, snap, mates):
         wd = {}
         for (a, b), w in items:
             wd[frozenset((a, b))] = fr(w)
-        bad = py_property(n, wd, cm)
+        bad = py_property(n, wd, cm, all_int=all(type(w) is int for _, w in items))
         ctx.extra['dp_checked'] = ctx.extra.get('dp_checked', 0) + 1
         if bad:
             ctx.monitor_fail('decoder graph ({}): {}'.format(name, bad), dict(meta, mates=mates_wire(cm)
@@ -900,8 +902,18 @@ def build_step(step, nodes, prev_g):
     ops = [(a, b, parse_w(w)) for a, b, w in step['ops_repr']]
     if step.get('reuse') and prev_g is not None:
         g = prev_g
+        via = step.get('via') or 'add_edge'
         for a, b, w in ops[len(ops) - step['reuse']:]:
-            g.add_edge(nodes[a], nodes[b], w)
+            # SimpleGraph IS a dict: besides add_edge a caller may re-weight an existing edge by item assignment, or
+            # delete it and assign the pair again (possibly named the other way round) - the same graph either way
+            old = (nodes[a], nodes[b]) if (nodes[a], nodes[b]) in g else (nodes[b], nodes[a]) if (nodes[b], nodes[a]) in g else None
+            if via == 'setitem' and old is not None:
+                g[old] = w
+            elif via == 'delset' and old is not None:
+                del g[old]
+                g[(nodes[a], nodes[b])] = w
+            else:
+                g.add_edge(nodes[a], nodes[b], w)
         return g, ops
     if step['kind'] == 'dict':
         return {(nodes[a], nodes[b]): w for a, b, w in ops}, ops
@@ -933,7 +945,7 @@ def py_judge(ops, n, cm):
         if isinstance(cm, str):
             return 'result is ' + cm
         return None if cm == [] else 'the empty graph does not yield the empty matching: {} pair(s) returned'.format(len(cm))
-    return py_property(n, last_write(ops), cm)
+    return py_property(n, last_write(ops), cm, all_int=all(type(w) is int for _, _, w in ops))
 
 
 def eval_history(steps, node_kind, n):
@@ -1038,12 +1050,12 @@ def fresh_answers(jobs):
 
 def gen_history(rng, n):
     """one history: list of steps (JSON-able); every non-empty graph has the same planted edge set"""
-    kind = rng.choice(['collide-all', 'collide-all', 'collide-all', 'collide-one', 'collide-one', 'equal', 'reuse',
+    kind = rng.choice(['collide-all', 'collide-all', 'collide-all', 'collide-one', 'collide-one', 'equal', 'reuse', 'reuse',
                        'one-weight', 'generic'])
     shape = rng.choice(['complete', 'complete', 'sparse', 'few', 'path'])
     steps = []
 
-    def step(ops, fn=None, kind_='simple', reuse=0, allow_dict=True):
+    def step(ops, fn=None, kind_='simple', reuse=0, allow_dict=True, via='add_edge'):
         fn = fn or rng.choice(['mwpm', 'mwpm', 'mwpm', 'mwpm_networkx'])
         pairs = [frozenset((a, b)) for a, b, _ in ops]
         if kind_ == 'simple' and len(set(pairs)) == len(pairs) and rng.random() < 0.2 and not reuse and allow_dict:
@@ -1051,7 +1063,7 @@ def gen_history(rng, n):
         act = rng.choice([['none'], ['add', rng.randrange(n), rng.randrange(n)], ['add', 0, 0], ['clear'], ['union'],
                           ['discard'], ['union']])
         steps.append({'fn': fn, 'kind': kind_, 'ops_repr': [[a, b, repr(w)] for a, b, w in ops], 'reuse': reuse,
-                      'after': act})
+                      'after': act, 'via': via})
 
     def empty():
         steps.append({'fn': rng.choice(['mwpm', 'mwpm', 'mwpm_networkx', 'mwpm_blossom5']),
@@ -1124,7 +1136,8 @@ def gen_history(rng, n):
                 a, b = b, a
             neww = rng.choice([w + rng.choice([-1000, 1000, -1, 1]), draw(), hash_partner(rng, w) or 0])
             cur = cur + [(a, b, neww)]
-            step(cur, reuse=1)        # the SAME graph object, one more add_edge
+            # the SAME graph object, one more add_edge - or the same re-weighting through the dict interface
+            step(cur, reuse=1, via=rng.choice(['add_edge', 'add_edge', 'setitem', 'delset']))
             maybe_empty(0.15)
     elif kind == 'one-weight':
         wk = rng.choice(WKINDS)
@@ -1372,7 +1385,7 @@ def eval_property_on_ops(ops, node_kind='obj'):
     except Exception as ex:
         return 'gt.mwpm raised {!r}'.format(ex), 'exception'
     cm = canon_mates(mates, {x: i for i, x in enumerate(nodes)})
-    return py_property(n, lw, cm), cm
+    return py_property(n, lw, cm, all_int=all(type(w) is int for _, _, w in ops)), cm
 
 
 def parse_ops(meta):
@@ -1553,7 +1566,7 @@ def replay(ctx, path):
                 wd[frozenset((int(a), int(b)))] = w
             n = max(max(p) for p in wd) + 1
             cm = canon_mates(run_mwpm(g), {i: i for i in range(n)})
-            r = py_property(n, wd, cm)
+            r = py_property(n, wd, cm, all_int=all(w.denominator == 1 for w in wd.values()))
             print('replay graph ->', r)
             bad += bool(r)
         mm = v.get('first_mismatch')
